@@ -103,6 +103,40 @@ Proof.
   rewrite E1, E2, Hw, Hn. split; [lia|reflexivity].
 Qed.
 
+Lemma procs_len_set_proc s p f : length (procs (set_proc s p f)) = length (procs s).
+Proof. unfold set_proc. cbn. destruct (p <? 0); [reflexivity|apply length_upd_nth]. Qed.
+Lemma procs_len_deliver s p sg l : length (procs (deliver s p sg l)) = length (procs s).
+Proof. unfold deliver. rewrite procs_len_set_proc. reflexivity. Qed.
+
+Lemma procs_len_scan_job lingers s1 j : length (procs (scan_job lingers s1 j)) = length (procs s1).
+Proof.
+  unfold scan_job. destruct (get_job s1 j) as [x|]; [|reflexivity].
+  destruct (kind x); try reflexivity. destruct (time_accepted x) as [t|]; [|reflexivity].
+  destruct (timed_out s1 (Some t) (eff_hard s1 x)).
+  - unfold on_hard. destruct (ready x); [reflexivity|].
+    destruct (owner x) as [p|]; [|reflexivity].
+    destruct (in_pool _ p); [|reflexivity].
+    destruct (negb (exit_of _ p =? 0) && exited _ p); rewrite ?procs_len_deliver; reflexivity.
+  - destruct (negb (memZ j (dirty s1)) && timed_out s1 (Some t) (eff_soft s1 x)); [|reflexivity].
+    cbn [procs with_dirty]. unfold on_soft. destruct (ready x); [reflexivity|].
+    destruct (owner x) as [p|]; [|reflexivity]. destruct (in_pool s1 p); [|reflexivity].
+    rewrite procs_len_deliver. reflexivity.
+Qed.
+
+Lemma sem_scan_job lingers s1 j : sem (scan_job lingers s1 j) = sem s1.
+Proof.
+  unfold scan_job. destruct (get_job s1 j) as [x|]; [|reflexivity].
+  destruct (kind x); try reflexivity. destruct (time_accepted x) as [t|]; [|reflexivity].
+  destruct (timed_out s1 (Some t) (eff_hard s1 x)).
+  - unfold on_hard. destruct (ready x); [reflexivity|].
+    destruct (owner x) as [p|]; [|reflexivity].
+    destruct (in_pool _ p); [|reflexivity].
+    destruct (negb (exit_of _ p =? 0) && exited _ p); reflexivity.
+  - destruct (negb (memZ j (dirty s1)) && timed_out s1 (Some t) (eff_soft s1 x)); [|reflexivity].
+    cbn [sem with_dirty]. unfold on_soft. destruct (ready x); [reflexivity|].
+    destruct (owner x) as [p|]; [|reflexivity]. destruct (in_pool s1 p); reflexivity.
+Qed.
+
 (* workers are only ever started by the supervision pass (and at construction) *)
 Theorem only_tick_starts_workers s e :
   e <> ETick -> length (procs (fst (step s e))) = length (procs s).
@@ -152,21 +186,12 @@ Proof.
     change (length (procs (fst (do_scan (with_sigs s []) lingers))) = length (procs (with_sigs s []))).
     generalize (with_sigs s []). intros s0. unfold do_scan.
     destruct (negb (scanner s0)); [reflexivity|]. cbn [fst].
-    assert (Hone : forall s1 j, length (procs (scan_job lingers s1 j)) = length (procs s1)).
-    { intros s1 j. unfold scan_job. destruct (get_job s1 j) as [x|]; [|reflexivity].
-      destruct (kind x); try reflexivity. destruct (time_accepted x) as [t|]; [|reflexivity].
-      destruct (timed_out s1 (Some t) (eff_hard s1 x)).
-      - unfold on_hard. destruct (ready x); [reflexivity|].
-        destruct (owner x) as [p|]; [|reflexivity].
-        destruct (in_pool _ p); [|reflexivity].
-        destruct (negb (exit_of _ p =? 0) && exited _ p); rewrite ?Hdl; reflexivity.
-      - destruct (negb (memZ j (dirty s1)) && timed_out s1 (Some t) (eff_soft s1 x)); [|reflexivity].
-        cbn [procs with_dirty]. unfold on_soft. destruct (ready x); [reflexivity|].
-        destruct (owner x) as [p|]; [|reflexivity]. destruct (in_pool s1 p); [|reflexivity].
-        rewrite Hdl. reflexivity. }
+    pose proof (procs_len_scan_job lingers) as Hone.
     assert (Hfold : forall snap s1, length (procs (fold_left (scan_job lingers) snap s1)) = length (procs s1)).
     { induction snap as [|j snap IH]; intros s1; cbn; [reflexivity|]. rewrite IH. apply Hone. }
     rewrite Hfold. reflexivity.
+  - destruct (negb (scanner _)); reflexivity.
+  - destruct (scan_todo _) as [|j0 r0]; cbn [fst]; [reflexivity|]. cbn [procs with_todo]. rewrite procs_len_scan_job. reflexivity.
   - unfold do_terminate_job. destruct (in_pool _ p); cbn [fst]; [|reflexivity]. rewrite Hsp, Hdl. reflexivity.
   - (* shrink *)
     unfold do_shrink. destruct (inactive _) as [|w ws]; [reflexivity|].
@@ -320,20 +345,12 @@ Proof.
     assert (H0 : SInv (sem (with_sigs s []))) by exact H. revert H0.
     generalize (with_sigs s []). intros s0 H0. unfold do_scan.
     destruct (negb (scanner s0)); [exact H0|]. cbn [fst].
-    assert (Hone : forall s1 j, sem (scan_job lingers s1 j) = sem s1).
-    { intros s1 j. unfold scan_job. destruct (get_job s1 j) as [x|]; [|reflexivity].
-      destruct (kind x); try reflexivity. destruct (time_accepted x) as [t|]; [|reflexivity].
-      destruct (timed_out s1 (Some t) (eff_hard s1 x)).
-      - unfold on_hard. destruct (ready x); [reflexivity|].
-        destruct (owner x) as [p|]; [|reflexivity].
-        destruct (in_pool _ p); [|reflexivity].
-        destruct (negb (exit_of _ p =? 0) && exited _ p); reflexivity.
-      - destruct (negb (memZ j (dirty s1)) && timed_out s1 (Some t) (eff_soft s1 x)); [|reflexivity].
-        cbn [sem with_dirty]. unfold on_soft. destruct (ready x); [reflexivity|].
-        destruct (owner x) as [p|]; [|reflexivity]. destruct (in_pool s1 p); reflexivity. }
+    pose proof (sem_scan_job lingers) as Hone.
     assert (Hfold : forall snap s1, sem (fold_left (scan_job lingers) snap s1) = sem s1).
     { induction snap as [|j snap IH]; intros s1; cbn; [reflexivity|]. rewrite IH. apply Hone. }
     rewrite Hfold. exact H0.
+  - destruct (negb (scanner _)); exact H.
+  - destruct (scan_todo _) as [|j0 r0]; cbn [fst]; [exact H|]. cbn [sem with_todo]. rewrite sem_scan_job. exact H.
   - unfold do_terminate_job. destruct (in_pool _ p); exact H.
   - cbn [sem with_sem with_nprocs]. apply sinv_iter_grow. exact H.
   - unfold do_shrink. destruct (inactive _) as [|w ws]; [exact H|].
